@@ -212,7 +212,12 @@ def literal_atom(ctx):
     for k in ("too-short-is-empty",):
         if k not in d:
             d[k] = [False, "Atom::matches_iter lost its %s clause" % k, b.loc()]
-    return _emit(d)
+    out = _emit(d)
+    for i_ in out:
+        # each side needs *a* comparison (side-missing); whether it is a loop or one comparison of the window is free
+        if i_.key.endswith(("|exact", "|i")) or i_.key.startswith(("loop|", "whole-window|")):
+            i_.optional = True
+    return out
 
 
 BR_ABBR = (
